@@ -304,14 +304,27 @@ func (r *RoundRobinSelection) Select(pool UpstreamPool, _ *layer4.Connection) *U
 	if n == 0 {
 		return nil
 	}
-	for i := uint32(0); i < n; i++ {
-		robin := atomic.AddUint32(&r.robin, 1)
-		host := pool[robin%n]
-		if host.available() {
+	for {
+		// scan one full cycle starting after the last position handed out, and move
+		// the shared position to the upstream chosen; if another goroutine moved it
+		// in the meantime, scan again so that concurrent selections cannot make each
+		// other probe only unavailable upstreams
+		robin := atomic.LoadUint32(&r.robin)
+		var host *Upstream
+		var step uint32
+		for i := uint32(1); i <= n; i++ {
+			if candidate := pool[(robin+i)%n]; candidate.available() {
+				host, step = candidate, i
+				break
+			}
+		}
+		if host == nil {
+			return nil
+		}
+		if atomic.CompareAndSwapUint32(&r.robin, robin, robin+step) {
 			return host
 		}
 	}
-	return nil
 }
 
 // UnmarshalCaddyfile sets up the RoundRobinSelection from Caddyfile tokens. Syntax:
